@@ -352,13 +352,17 @@ def run_columns(ctx):
             if i_ % 5 == 4:
                 c2 = rng.choice([x for x in CAPS if x != c_])
                 spec = "%s,%s+%s" % (c_, c2, f_)
-            if _sp.run(["setcap", spec, fn], stdout=_sp.PIPE, stderr=_sp.PIPE).returncode == 0:
-                made[os.path.basename(fn)] = spec
+            # every third file in the namespaced form of the attribute (revision 3: the same sets plus the id of a user-namespace root)
+            cmd_ = ["setcap", "-n", str(rng.choice([1000, 65534, 100000])), spec, fn] if i_ % 3 == 2 else ["setcap", spec, fn]
+            if _sp.run(cmd_, stdout=_sp.PIPE, stderr=_sp.PIPE).returncode == 0:
+                made[os.path.basename(fn)] = " ".join(cmd_[1:-1])
         open(os.path.join(capd, "plain"), "w").close()
 
         def capset(text):
             out = {}
             for grp in text.split():
+                if grp.startswith("["):          # `[rootid=1000]`: the namespace the set belongs to
+                    continue
                 m_ = re.match(r"^([a-z_,0-9]+)[=+]([eip]+)$", grp)
                 if not m_:
                     return None
@@ -432,7 +436,7 @@ def run(ctx):
     m = run_modes(ctx)
     c = run_columns(ctx)
     ctx.coverage["columns_part"] = dict(queries=c["n"], entries_checked=c["ok"], files_with_capabilities_checked_against_getcap=c.get("capability_files", 0), extension_verdicts_equal_to_regenerated_has_extension=c.get("ext_model_agreed", 0), distinct_entries=len(c["distinct"]), samples=c["samples"],
-                                        rule="random trees (files with contents: empty, shebang, no trailing newline, binary, > 64 KiB, 9000 newlines, newline-rich contents of 40 KB - 250 KB whose length is not a multiple of a read block; mtimes incl. 0 and 2038+; owners without a name; xattrs; sockets; links incl. dangling; dot-files, several dots, upper-case extensions) - columns path,name,ext,dir,abspath,absdir,size,uid,gid,user,group,inode,hardlinks,blocks,modified,is_hidden,is_empty, the eight extension classes (default lists read from config.rs, and a configuration file overriding every list with plain, compound and dot-less endings), sha1/sha256/sha512/sha3, line_count, is_shebang, has_xattrs, capabilities / has_capabilities() / has_capability(c) for the 41 Linux capabilities x flag combinations against getcap, CONTAINS(s) with needles inside a line and across line breaks compared with os.lstat, pwd/grp, hashlib and the directory contents; the content columns of a link to a regular file (directly or through a second link) are those of the file")
+                                        rule="random trees (files with contents: empty, shebang, no trailing newline, binary, > 64 KiB, 9000 newlines, newline-rich contents of 40 KB - 250 KB whose length is not a multiple of a read block; mtimes incl. 0 and 2038+; owners without a name; xattrs; sockets; links incl. dangling; dot-files, several dots, upper-case extensions) - columns path,name,ext,dir,abspath,absdir,size,uid,gid,user,group,inode,hardlinks,blocks,modified,is_hidden,is_empty, the eight extension classes (default lists read from config.rs, and a configuration file overriding every list with plain, compound and dot-less endings), sha1/sha256/sha512/sha3, line_count, is_shebang, has_xattrs, capabilities / has_capabilities() / has_capability(c) for the 41 Linux capabilities x flag combinations, in the plain and in the namespaced (revision 3) form of the attribute, against getcap, CONTAINS(s) with needles inside a line and across line breaks compared with os.lstat, pwd/grp, hashlib and the directory contents; the content columns of a link to a regular file (directly or through a second link) are those of the file")
     ctx.coverage.update(
         evaluations=m["evaluations"] + c["ok"], distinct_nontrivial=m["distinct"] + len(c["distinct"]),
         traces_validated_against_impl=m["agreed"],
